@@ -830,7 +830,7 @@ def units(tier, seed):
     # large sizes requested one after the other in ONE process (memo keys of neighbouring sizes must not collide)
     for tag, pairs in ((('150-151', [(150, 10), (151, 10), (50, 11), (51, 11)]),
                         ('120-121-199-200', [(121, 7), (120, 7), (200, 3), (199, 3), (21, 8), (20, 8)])) +
-                       ((('128-129', [(128, 64), (129, 64), (29, 65)]),) if th else ())):
+                       ((('128-129', [(128, 20), (129, 20), (29, 21)]),) if th else ())):
         add('weights-big-hist-' + tag, make_weights(pairs, False), dict(pairs=pairs, hits='0..n'),
             3 * sum(n + 1 for n, m in pairs))
     return us
